@@ -235,9 +235,13 @@ def percolate_space(
 
     percolated = Percolation.percolate_subspace(network, space)
     result: BooleanSpace = {}
-    for var, value in percolated.items():
-        var_name = network.get_network_variable_name(var)
-        result[var_name] = cast(Literal[0, 1], int(value))
+    # The iteration order of the map returned by AEON is not reproducible. The key
+    # order of a space leaks into later solver queries (and through solution limits
+    # into their results), so we always list the variables in network order.
+    for var in network.network_variables():
+        if var in percolated:
+            var_name = network.get_network_variable_name(var)
+            result[var_name] = cast(Literal[0, 1], int(percolated[var]))
     return result
 
 
